@@ -13,7 +13,7 @@ KANI_FOR = {
     'C15': ['comb'],
 }
 
-LEVELS = {'C12': 'other'}          # property -> level category (default proof)
+LEVELS = {}          # property -> level category (default proof)
 EXPLANATIONS = {}
 ASSUMPTIONS_COMMON = [
     'Verus 0.2026.09.13 + Z3, rustc front end, and the weaver (syn) are trusted; rewrites applied are listed under coverage.rewrites_applied',
